@@ -127,8 +127,12 @@ CHECKS = {
             'blocks were read under the same (time step, mu zone, phi zone) indices, every printed row is the content of the '
             'cell at (its row index, those indices) in C order, each axis read through the very flip applied to the bins of '
             'that axis; axis_bins_increasing: that flip makes any strictly monotone edge list strictly increasing; '
-            'time_edges_collected: the time edges are the first bounds of the time steps read. NOT proved: that a well-formed '
-            'printed grid gives distinct indices and the expected bin counts (nbBins), the pyparsing grammar, the mesh / Green '
+            'time_edges_collected: the time edges are the first bounds of the time steps read. grid_scores_attached: a response '
+            'printed over a full time x mu x phi grid (blocks in lexicographic order, each key with the first block it applies '
+            'to) is read under pairwise distinct indices (cursors_blocks, cursors_blocks_nodup), _get_number_of_bins finds '
+            'the three dimensions (nbBins_blocks), and the row printed for (group, time step, mu zone, phi zone) is the '
+            'content of the cell at those indices. NOT proved: that convert returns on such a grid (hypothesis), grids '
+            'without one of the axes, the pyparsing grammar, the mesh / Green '
             'bands / IFP / keff / sensitivity builders, the Apollo3 reader and picker. These are decided on every run by (a) '
             'bit-exact correspondence of `convert` with common.convert_spectrum + data_convertor.convert_data on generated '
             'token lists (all four axes, both printing orders, gaps, ragged sub-spectra: same exception class), with an '
